@@ -611,6 +611,13 @@ func (r *FnRun) execMakeSlice(st *State, x *ssa.MakeSlice) {
 	et := x.Type().Underlying().(*types.Slice).Elem()
 	ptr := tb.Fresh("mkp!"+r.fn.Name(), BV64)
 	r.addFact(tb.Ne(ptr, zero))
+	r.addFact(tb.ULt(ptr, tb.BVU(64, 1<<47)))
+	bytes := tb.Mul(cp, tb.BVI(64, r.e.sizeof(et)))
+	for _, kr := range r.root.knownRanges {
+		r.addFact(tb.Not(tb.ULt(tb.Sub(ptr, kr[0]), kr[1])))
+	}
+	r.distinctFromParams(ptr)
+	r.root.localRanges = append(r.root.localRanges, [2]*Term{ptr, bytes})
 	r.vals[x] = PSlice{Ptr: ptr, Len: ln, Cap: cp, Elem: et}
 	r.root.notes["make of non-byte slice: element zero-initialisation not modelled"] = true
 }
